@@ -25,12 +25,9 @@ def run(ctx):
         if d['kind'] == 'prefix':
             continue
         name = '%s%02X' % (PFXN[fam], b)
-        otab = oc.tables[fam]
-        if b in otab:
-            size = otab[b][0]
-        elif fam in oc.fallback:
-            size = oc.fallback[fam][0]
-        else:
+        try:
+            size = oc.size(fam, b)
+        except KeyError:
             ctx.violation(name, 'skoolkit/opcodes.py', 'no entry and no fall-back for %s' % name)
             continue
         # sna2ctl decodes without the optional opcode sets; an entry that is an instruction only under Opcodes=... is data (DEFB) for sna2skool's default too
